@@ -163,7 +163,7 @@ impl Property for C09 {
         ]
     }
     fn required_probes(&self) -> Vec<&'static str> {
-        vec!["chain_depth64_ok", "cycle_err", "stack_2mib", "entry_preprocess_str"]
+        vec!["chain_depth64_ok", "cycle_err", "stack_2mib", "entry_preprocess_str", "history_failing_calls"]
     }
 
     fn generate(&self, seed: u64, run: u64, tier: &str) -> Scenario {
@@ -208,8 +208,26 @@ impl Property for C09 {
         c.include_paths = dirs.clone();
         c.strip_comments = rng.chance(1, 4);
         c.hash_seed = rng.next();
-        sc.threads = vec![vec![Op::Call(c)]];
-        sc.family = format!("{}:{}{}", mech, if is_cycle { "cycle" } else { "chain" }, n);
+        // "for every call": a third of the runs put 1..4 failing (cyclic) calls on the same thread first
+        let mut ops = vec![];
+        let mut prefix = 0;
+        if rng.chance(1, 3) {
+            prefix = 1 + rng.below(4);
+            for i in 0..prefix {
+                if rng.coin() {
+                    let p = format!("/q{}/self.sv", i);
+                    sc.vfs.push(VNode::file(&p, &format!("// cycle\n`include \"{}\"\n", p)));
+                    ops.push(Op::Call(Call::new(Api::Preprocess, &p)));
+                } else {
+                    let mut pc = Call::new(Api::PreprocessStr, "cyc.sv");
+                    pc.text = Some("`define A `B\n`define B `A\n`A\n".to_string());
+                    ops.push(Op::Call(pc));
+                }
+            }
+        }
+        ops.push(Op::Call(c));
+        sc.threads = vec![ops];
+        sc.family = format!("{}:{}{}{}", mech, if is_cycle { "cycle" } else { "chain" }, n, if prefix > 0 { format!("+after{}failing", prefix) } else { String::new() });
         sc.expect = json!({
             "mechanism": mech,
             "shape": if is_cycle { "cycle" } else { "chain" },
@@ -222,7 +240,14 @@ impl Property for C09 {
     }
 
     fn valid(&self, sc: &Scenario) -> bool {
-        sc.calls().count() == 1 && sc.expect.get("shape").is_some()
+        // the expectation is computed by the generator: shrinking may drop history calls and change the
+        // stack size, but the recursion structure and the judged call must stay what generate() built
+        if sc.calls().count() < 1 || sc.expect.get("shape").is_none() {
+            return false;
+        }
+        let fresh = self.generate(sc.seed, sc.run, &sc.tier);
+        let main_files = |x: &Scenario| -> Vec<VNode> { x.vfs.iter().filter(|n| !n.path().starts_with("/q")).cloned().collect() };
+        fresh.expect == sc.expect && main_files(&fresh) == main_files(sc) && fresh.calls().last() == sc.calls().last()
     }
 
     fn shrink(&self, sc: &Scenario) -> Vec<Scenario> {
@@ -246,14 +271,39 @@ impl Property for C09 {
             rep.harness_error = Some(e.clone());
             return rep;
         }
-        let o = match out.calls.first() {
+        if let Some(a) = &out.aborted {
+            rep.violations.push(crate::runner::abort_violation("C09", a));
+            rep.probe("aborted_executions", 1);
+            rep.distinct_key = crate::rng::fnv(format!("{}|{}", sc.family, sc.knobs.stack_mib).as_bytes());
+            rep.nontrivial = true;
+            return rep;
+        }
+        // the judged call is the last one; calls before it are the failing history
+        let o = match out.calls.last() {
             Some(o) => o,
             None => {
                 rep.harness_error = Some("no outcome".into());
                 return rep;
             }
         };
-        let call = sc.calls().next().unwrap();
+        let call = sc.calls().last().unwrap();
+        for (i, pre) in out.calls.iter().enumerate().take(out.calls.len().saturating_sub(1)) {
+            let ok = pre.digest.as_ref().and_then(|d| d.err.as_ref()).map(|e| e.contains("ExceedRecursiveLimit")).unwrap_or(false);
+            if !ok {
+                rep.violations.push(Violation {
+                    property: "C09".into(),
+                    clause: "C09.cycle_ends_in_limit_error".into(),
+                    kind: "wrong-error-shape".into(),
+                    thread: 0,
+                    call: i,
+                    expected: "Err(..ExceedRecursiveLimit)".into(),
+                    observed: pre.short(),
+                    detail: "a cyclic call of the history did not end in ExceedRecursiveLimit".into(),
+                });
+                break;
+            }
+            rep.probe("history_failing_calls", 1);
+        }
         let shape = sc.expect["shape"].as_str().unwrap_or("");
         let n = sc.expect["n"].as_u64().unwrap_or(0);
         let marker = sc.expect["marker"].as_str().unwrap_or("leaf_marker");
